@@ -65,6 +65,14 @@ def run_prefix(ops):
                 getattr(s, f).add(t)
             related.add(id(s))
             related.add(id(t))
+        elif k == "unlink" and live:
+            # the source of recorded relations stops holding their targets (the relations stay in the graph) and can
+            # then outlive them
+            orgs = [x for x in live if type(x).__name__ == "Org"]
+            if orgs:
+                o = orgs[op[1] % len(orgs)]
+                o.linked_to = []
+                o.part_of = []
         elif k == "drop" and live:
             x = live.pop(op[1] % len(live))
             if id(x) in related:
@@ -141,6 +149,7 @@ class C14(Check):
             st.tuples(st.just("relate"), st.integers(0, 7), st.integers(0, 7), st.integers(0, 7)),
             st.tuples(st.just("relate"), st.integers(0, 7), st.integers(0, 7), st.integers(0, 7)),
             st.tuples(st.just("drop"), st.integers(0, 7)),
+            st.tuples(st.just("unlink"), st.integers(0, 7)),
             st.tuples(st.just("gc")), st.tuples(st.just("sweep")), st.tuples(st.just("drop_all")),
         ).map(list)
 
@@ -152,6 +161,9 @@ class C14(Check):
                 prefix += [["relate", draw(st.integers(0, 7)), draw(st.integers(0, 7)), draw(st.integers(0, 7))]
                            for _ in range(draw(st.integers(1, 5)))]
                 prefix += draw(st.lists(pre_op, max_size=6))
+                if draw(st.sampled_from([0, 0, 1])):
+                    # a source that stops holding its targets, which then die and are swept while it lives on
+                    prefix += [["unlink", draw(st.integers(0, 7))], ["drop", draw(st.integers(0, 7))], ["gc"], ["sweep"]]
                 prefix += draw(st.sampled_from([[["drop_all"], ["sweep"]], [["drop_all"], ["sweep"]], [["drop_all"]], [["gc"], ["sweep"]], []]))
             pop = gen_population(draw, max_orgs=3, max_agents=2, max_bosses=1)
             # creation order of the suffix population is shuffled relative to class order
